@@ -26,7 +26,7 @@ func funcKey(fn *ssa.Function) string {
 	if fn.Pkg != nil {
 		pk = load.Rel(fn.Pkg.Pkg.Path())
 	}
-	name := fn.Name()
+	name := canonName(fn)
 	if fn.Signature.Recv() != nil {
 		if nt := namedOfType(fn.Signature.Recv().Type()); nt != nil {
 			name = nt.Obj().Name() + "." + name
@@ -36,6 +36,18 @@ func funcKey(fn *ssa.Function) string {
 		return funcKey(fn.Parent()) + "$" + fn.Name()
 	}
 	return pk + "." + name
+}
+
+// canonName: the name rules print for a function - its own, or the canonical name of the unexported helper it stands in
+// for after a rename (load/alias.go), so that keys and path signatures do not depend on the spelling of private names.
+func canonName(fn *ssa.Function) string {
+	if fn == nil {
+		return ""
+	}
+	if obj, ok := fn.Object().(*types.Func); ok {
+		return load.CanonName(obj)
+	}
+	return fn.Name()
 }
 
 // reachable returns the module functions reachable from the roots in the VTA call graph.
